@@ -135,10 +135,24 @@ func runN2H(tier string) partResult {
 						addrs = append(addrs, eps[i].srv.URL+"/g?d=%s")
 					}
 				}
+				// with two endpoints: both follow the script, or one follows it while the other is
+				// healthy throughout (so that the endpoints disagree)
+				variants := []string{"both"}
+				if nep == 2 {
+					variants = []string{"both", "first-only", "second-only"}
+				}
+				for _, variant := range variants {
 				for _, sc := range scripts {
+					if variant != "both" && len(sc) == 0 {
+						continue
+					}
 					cases++
 					for i := 0; i < nep; i++ {
-						eps[i].reset(sc)
+						if variant == "both" || (variant == "first-only" && i == 0) || (variant == "second-only" && i == 1) {
+							eps[i].reset(sc)
+						} else {
+							eps[i].reset(nil)
+						}
 					}
 					selected := ModeAll
 					switch modeName {
@@ -186,7 +200,7 @@ func runN2H(tier string) partResult {
 						}
 						if have < need {
 							res.Found = append(res.Found, vx.Found{Sig: fmt.Sprintf("C20 nsq_to_http finished a message the destination did not accept :: nsq_to_http %s %s", method, modeName),
-								Detail: fmt.Sprintf("%s mode %s, %d endpoint(s), status script %v: HandleMessage returned nil on attempt %d but only %d of the %d required endpoints answered 2xx with the exact payload", method, modeName, nep, sc, attempt+1, have, need),
+								Detail: fmt.Sprintf("%s mode %s, %d endpoint(s), status script %v (%s): HandleMessage returned nil on attempt %d but only %d of the %d required endpoints answered 2xx with the exact payload", method, modeName, nep, sc, variant, attempt+1, have, need),
 								Replay: map[string]interface{}{"kind": "n2h", "method": method, "mode": modeName, "endpoints": nep, "script": sc}})
 						}
 					}
@@ -198,6 +212,7 @@ func runN2H(tier string) partResult {
 					if len(res.Samples) < 3 && len(sc) == maxLen {
 						res.Samples = append(res.Samples, map[string]interface{}{"tool": "nsq_to_http", "method": method, "mode": modeName, "endpoints": nep, "statuses": sc, "answers": outcome})
 					}
+				}
 				}
 			}
 		}
